@@ -106,6 +106,8 @@ def call_shape(prog, rep, fam, mi):
     kw = dict(t[3])
     sample = P([p for p in fn.positional_params if p != "self"][0])
     inst = f"{fam.ci.qualname}._fit_mle"
+    if mi.kw_name is not None and not mi.shared_keywords(rep, "C12.call"):
+        return
     rep.check(mi.dist == dist, "C12.call", inst + ":dist", site, f"scipy.stats.{dist}.fit",
               f"fits scipy.stats.{mi.dist} but cdf/icdf/pdf use scipy.stats.{dist}")
     rep.check(bool(args) and args[0] == sample, "C12.call", inst + ":data", site, "fit(sample, ...) on the unmodified data",
@@ -156,7 +158,9 @@ def run(prog, rep):
             rep.check(ok, "C12.call", f"{fam.ci.qualname}._fit_mle", mf.where(), "self.scipy_dist.fit(sample, *shape starts, loc=, scale=, **fixed)",
                       "generic fit must pass the unmodified sample, the shape start values positionally and loc=/scale= starts")
             continue
-        mi = MleInfo(prog, fam)
+        mi = rep.part(MleInfo, prog, fam)
+        if mi is None:
+            continue
         rep.analysed(mi.fn)
         rep.part(call_shape, prog, rep, fam, mi)
         # C12.assign: same obligations as C11.unmap, reported under this property's rule id
